@@ -199,7 +199,7 @@ def run_case(case):
             C["interrupt_points"] = C.get("interrupt_points", 0) + 1
             st = judge(V, C, seen, before, files, present | {3}, npar, 1, "exception at operation %d/%d of a write (start %s)" % (k, total, case["start"]))
             # the next write after the interrupted one completes and leaves a good directory
-            files2, _, died = write_once(dict(files), bs, None, 4, npar)
+            files2, _, died = write_once(files, bs, None, 4, npar)
             judge(V, C, seen, files, files2, complete_versions(files, npar, 4) | {4}, npar, 2, "complete write after an exception at operation %d/%d" % (k, total))
         return {"violations": V, "counters": C, "fingerprint": None, "fingerprints": ["|".join(map(str, x)) for x in sorted(seen, key=str)], "sample": None}
     if eng == "shim":
